@@ -170,14 +170,28 @@ HOSTILE_DEFAULTS = [("ｔｅｓｔ/ｒｅｃ", []), ("ﬁle/entry", []), ("ok", 
                     ("A\rB", []), ("class", [("string", "x-y")])]
 
 
-def c06_definition(entry=None, name=None, fields=None):
+def c06_definition(entry=None, name=None, fields=None, _fallback=True):
+    if name is not None and fields is not None and _fallback and entry is not None:
+        # the solver's model may be spurious where the path goes through an uninterpreted function (a text normalisation): when it does not fail on the real code, a few
+        # fixed hostile definitions are tried as well - whatever is reported is a real failing input
+        first = c06_definition(entry, name, fields, _fallback=False)
+        if first.get("violates"):
+            return first
+        for nm_, fl_ in HOSTILE_DEFAULTS:
+            if entry == "avro_doc" and not fl_:
+                continue  # (a doc without fields is not a definition: the reader takes the schema's own name and fields instead)
+            nxt = c06_definition(entry, nm_, fl_, _fallback=False)
+            if nxt.get("violates"):
+                nxt["note"] = f"the solver's witness name={name!r} fields={fields!r} does not fail on the real code; this fixed hostile definition does"
+                return nxt
+        return first
     if name is None or fields is None:
         # the solver refuted the obligation without handing out a model: look for a failing input among a few fixed hostile definitions
         last = {"violates": False, "note": "no model from the solver and none of the fixed hostile definitions fails"}
         for nm_, fl_ in HOSTILE_DEFAULTS:
             if entry is None:
                 break
-            last = c06_definition(entry, nm_, fl_)
+            last = c06_definition(entry, nm_, fl_, _fallback=False)
             if last.get("violates"):
                 return last
         return last
@@ -303,7 +317,7 @@ def c06_hostile(seed, n):
                 continue  # (an Avro doc of a zero-field descriptor does not end in "]]]": the reader derives the descriptor from the schema instead)
             cases += 1
             try:
-                r = c06_definition(entry, name, fields)
+                r = c06_definition(entry, name, fields, _fallback=False)
             except Exception as e:
                 return {"violates": False, "error": f"harness: {e!r}", "cases": cases}
             if r["violates"]:
